@@ -292,6 +292,31 @@ def _s_failing_callee(s):
     s.new()
 
 
+def _s_temp_concat(s):
+    # an in-place member on a table built on the fly stores (a reference to) the object of a variable: the variable keeps it
+    if s.a is None:
+        return False
+    s.t = [s.a, s.a]
+
+
+def _s_temp_put(s):
+    if s.a is None or s.b is None:
+        return False
+    s.t = [s.b, s.a]
+
+
+def _s_temp_tuple(s):
+    if s.a is None or s.b is None:
+        return False
+    s.u = s.b
+
+
+def _s_forall_element(s):
+    # the iterated table is an element of a variable (neither the variable itself nor a temporary)
+    if not s.t:
+        return False
+
+
 def _s_failing_body(s):
     if not s.t:
         return False
@@ -343,6 +368,10 @@ STMTS = {
     "renew-other": ("zz = a.renew(b, 5).get();", _s_renew_other),
     "failing-callee": ("begin zz = ffail(a); exception when others then zz = 0; end;", _s_failing_callee),
     "failing-callee-unhandled": ("zz = ffail(a);", _s_failing_callee),
+    "temp-table-concat": ("t = tab(1, a).concat(a);", _s_temp_concat),
+    "temp-table-put": ("t = tab(2, a).put(0, b);", _s_temp_put),
+    "temp-tuple-set": ("u = tup(1, a).set@2(b);", _s_temp_tuple),
+    "forall-element": ("tt2 = tab(2, t); forall e in tt2.at(1) loop zz = e.get(); end loop; forall e in tt2.at(0) desc loop zz = e.id(); end loop; tt2 = null;", _s_forall_element),
     "forall-failing-body": ("forall e in t loop zz = vmod(11).get(); raise efail; end loop;", _s_failing_body),
 }
 FAILING = {"forall-refused-temp", "forall-refused-var", "forall-failing-body", "failing-callee-unhandled"}
